@@ -804,6 +804,7 @@ type gslot struct {
 	off    int    // zone offset (SECONDS) of the saved time
 	maxLen int64  // size of the longest file Save ever left at this path
 	writes int
+	raw    []byte // non-nil: the path holds these bytes, written by a `gfile` op (not by Save)
 }
 
 func (r *runner) dropSlots() {
@@ -1003,7 +1004,7 @@ func (r *runner) doGenesis(o hx.Op) {
 		if raw, e := os.ReadFile(s.path); e == nil {
 			file = hx.Hex(raw)
 		}
-		s.saved, s.g, s.cond, s.off = true, g, cond, offSec
+		s.saved, s.g, s.cond, s.off, s.raw = true, g, cond, offSec, nil
 		s.writes++
 		if st, e := os.Stat(s.path); e == nil && st.Size() > s.maxLen {
 			s.maxLen = st.Size()
@@ -1015,6 +1016,89 @@ func (r *runner) doGenesis(o hx.Op) {
 	}
 	r.c.Hit("genesis:" + val)
 	r.c.Emit("val=%s file=%s load=%s", val, file, ld)
+}
+
+// loadRaw: LoadGenesis on a path that holds the bytes `raw` (written by the harness, not by Save).
+// Oracle (independent of the model): the file is a genesis document exactly when it is ONE JSON value
+// (json.Valid: white space around it is fine, anything else after it is not) that decodes into a
+// genesis Validate accepts; only then may it load, and then as what it says.
+func (r *runner) loadRaw(path string, raw []byte) string {
+	var want genesis.Genesis
+	wantOK := json.Valid(raw) && json.Unmarshal(raw, &want) == nil && want.Validate() == nil
+	back, err := genesis.LoadGenesis(path)
+	if err != nil {
+		cl := genesisErrClass(err)
+		if wantOK {
+			r.c.Report("C18/genesis/valid-file-refused", fmt.Sprintf("a file holding exactly one valid genesis document (%d bytes) is refused: %v", len(raw), err))
+		}
+		r.c.Hit("gfile:refused:" + cl)
+		return "err:" + cl
+	}
+	if !wantOK {
+		// which kind of invalid file was accepted?
+		var first genesis.Genesis
+		dec := json.NewDecoder(bytes.NewReader(raw))
+		switch {
+		case !json.Valid(raw) && dec.Decode(&first) == nil:
+			rest := raw[dec.InputOffset():]
+			r.c.Report("C18/genesis/invalid-loaded/trailing-content", fmt.Sprintf("LoadGenesis accepts a file that holds a genesis object followed by %d more bytes (%q): not a JSON document, the content after the first object is silently ignored (loaded chain_id %q, initial_height %d)", len(rest), truncate(string(rest), 60), back.ChainID, back.InitialHeight))
+		case !json.Valid(raw):
+			r.c.Report("C18/genesis/invalid-loaded/not-json", fmt.Sprintf("LoadGenesis accepts a file that is not JSON (%d bytes)", len(raw)))
+		default:
+			r.c.Report("C18/genesis/invalid-loaded/file", "LoadGenesis accepts a file whose document is not a valid genesis")
+		}
+	} else {
+		_, boff := back.GenesisDAStartTime.Zone()
+		_, woff := want.GenesisDAStartTime.Zone()
+		if back.ChainID != want.ChainID || back.InitialHeight != want.InitialHeight || !back.GenesisDAStartTime.Equal(want.GenesisDAStartTime) || boff != woff || !bytes.Equal(back.ProposerAddress, want.ProposerAddress) {
+			r.c.Report("C18/genesis/file-load-differs", fmt.Sprintf("the file says %+v, LoadGenesis returns %+v", want, back))
+		}
+	}
+	r.c.Hit("gfile:loaded")
+	bt := back.GenesisDAStartTime
+	_, boff := bt.Zone()
+	pas := "nil"
+	if back.ProposerAddress != nil {
+		pas = hx.Hex(back.ProposerAddress)
+	}
+	return fmt.Sprintf("ok cid=%s ih=%d t=%d.%d offs=%d pa=%s", hexS(back.ChainID), back.InitialHeight, bt.Unix(), bt.Nanosecond(), boff, pas)
+}
+
+func truncate(s string, n int) string {
+	if len(s) > n {
+		return s[:n] + "…"
+	}
+	return s
+}
+
+// doGFile: arbitrary bytes at a genesis path (a fresh one, or the scenario's path `at=<n>`), then LoadGenesis.
+func (r *runner) doGFile(o hx.Op) {
+	raw, err := hx.UnHex(o.Str("hex"))
+	at, okAt := slotName(o)
+	if err != nil || !o.Has("hex") || !okAt {
+		r.c.Emit("bad-op")
+		return
+	}
+	if raw == nil {
+		raw = []byte{}
+	}
+	var s *gslot
+	if at == "" {
+		home := r.home()
+		defer os.RemoveAll(home)
+		path := genesis.GenesisPath(home)
+		_ = os.MkdirAll(filepath.Dir(path), 0o755)
+		s = &gslot{path: path}
+	} else {
+		s = r.slot(at)
+	}
+	if err := os.WriteFile(s.path, raw, 0o600); err != nil {
+		r.c.Emit("err:harness")
+		return
+	}
+	s.saved, s.raw = true, raw
+	s.writes++
+	r.c.Emit("load=%s", r.loadRaw(s.path, raw))
 }
 
 // doGLoad: load what the scenario's path `at=<n>` holds now (nothing was ever saved there: refused).
@@ -1036,6 +1120,10 @@ func (r *runner) doGLoad(o hx.Op) {
 		return
 	}
 	r.c.Hit("gload")
+	if s.raw != nil {
+		r.c.Emit("load=%s", r.loadRaw(s.path, s.raw))
+		return
+	}
 	r.c.Emit("load=%s", r.loadBack(s, true))
 }
 
@@ -1073,6 +1161,8 @@ func Run(c *hx.Ctx) {
 				r.doGenesis(o)
 			case "gload":
 				r.doGLoad(o)
+			case "gfile":
+				r.doGFile(o)
 			default:
 				c.Emit("bad-op")
 			}
